@@ -873,7 +873,7 @@ class Frame:
             from .models import setitem
             # an empty display is usually filled later, possibly under symbolic keys and through aliases (arguments,
             # default values, other containers): start symbolic so that the object identity survives
-            d = {} if (e.keys or os.environ.get('NOSD')) else SDict([])
+            d = {} if e.keys else SDict([])
             for k, v in zip(e.keys, e.values):
                 if k is None:
                     src = s.split(s.ev(v))
